@@ -171,7 +171,8 @@ class AbstractValueWithQuantityObject:
             unit if it's not in the list of valid units (because it may be using a unit valid for
             the quantity type even if it doesn't match a unit in the category).
         """
-        valid_units = self.GetUnitDatabase().GetValidUnits(self.GetCategory())
+        # A copy: the list returned by the database may be the one it keeps for the category.
+        valid_units = list(self.GetUnitDatabase().GetValidUnits(self.GetCategory()))
         current_unit = self.GetQuantity().GetUnit()
         if current_unit not in valid_units:
             valid_units.append(current_unit)
